@@ -59,7 +59,11 @@ def shard(arg):
     p = core.Part()
     RecContext, RecEnv = make_classes()
     for it in corpus.items(tier, shard=(k, n)):
-        env, gm, data = it.make(env_cls=RecEnv)
+        env, gm, data = corpus.safe_make(it, env_cls=RecEnv)
+        if env is None:
+            p.evals += 1
+            p.count("items_not_buildable")
+            continue
         RecContext.log, RecEnv.loads = [], []
         try:
             t = gm()
